@@ -53,13 +53,28 @@ def state_kwargs(prog: Program, call: ast.Call) -> Dict[str, ast.AST]:
     return astx.bind_args(call, state_fields(prog))
 
 
-def flatten_base(e: ast.AST) -> ast.AST:
+def _is_flatten(e: ast.AST) -> bool:
+    if isinstance(e, (ast.ListComp, ast.GeneratorExp, ast.SetComp)) and len(e.generators) == 2:
+        g0, g1 = e.generators
+        return (isinstance(g0.target, ast.Name) and isinstance(g1.target, ast.Name) and astx.is_name(g1.iter, g0.target.id)
+                and astx.is_name(e.elt, g1.target.id) and not g0.ifs and not g1.ifs)
+    return isinstance(e, ast.Call) and isinstance(e.func, ast.Name) and e.func.id in ("list", "set", "frozenset", "tuple") and len(e.args) == 1 and not e.keywords \
+        and (_is_flatten(e.args[0]) or isinstance(e.args[0], ast.Name))
+
+
+def flatten_base(e: ast.AST, fnode: Optional[ast.AST] = None) -> ast.AST:
     """The collection whose candidates `e` enumerates:
     [c for s in B for c in s] -> B ;  list(B)/set(B)/frozenset(B)/tuple(B) -> B ;
-    (frozenset(B),) -> B ; (frozenset({x}),) / (frozenset([x]),) / frozenset({x}) -> x ; [x] -> x."""
+    (frozenset(B),) -> B ; (frozenset({x}),) / (frozenset([x]),) / frozenset({x}) -> x ; [x] -> x.
+    With `fnode`, a local that is assigned exactly once, to such a flattening of B, stands for B as well."""
     changed = True
     while changed:
         changed = False
+        if fnode is not None and isinstance(e, ast.Name):
+            dv = astx.unique_def(fnode, e.id)
+            if dv is not None and _is_flatten(dv):
+                e, changed = dv, True
+                continue
         if isinstance(e, (ast.ListComp, ast.GeneratorExp, ast.SetComp)) and len(e.generators) == 2:
             g0, g1 = e.generators
             if (isinstance(g0.target, ast.Name) and isinstance(g1.target, ast.Name) and astx.is_name(g1.iter, g0.target.id)
